@@ -2,7 +2,7 @@ SPECIFICATION Spec
 CONSTANTS
   RealPts <- PtsSigned
   Leaves <- MT_Leaves
-  MaxLeaves = 3
+  MaxLeaves = 2
   MaxOps = 2
   UnOps <- MT_UnOps
   BinOps <- MT_BinOps
